@@ -4,6 +4,7 @@ import (
 	"bytes"
 	"context"
 	"io"
+	"net/url"
 	"sort"
 	"strings"
 
@@ -110,6 +111,7 @@ func (m *MemStore) SubStore(sub string) (dstore.Store, error) {
 	return &MemStore{files: m.files, prefix: m.prefix + sub + "/"}, nil
 }
 
+func (m *MemStore) BaseURL() *url.URL              { return &url.URL{Scheme: "mem", Path: "/" + m.prefix} }
 func (m *MemStore) ObjectPath(base string) string { return m.prefix + base }
 func (m *MemStore) ObjectURL(base string) string  { return "mem://" + m.prefix + base }
 func (m *MemStore) SetMeter(meter dstore.Meter)    {}
